@@ -10,6 +10,7 @@ import (
 	"path/filepath"
 	"strings"
 	"sync"
+	"time"
 
 	"verif/internal/pdfdoc"
 
@@ -227,6 +228,27 @@ func writeDocFiles() {
 		sb, serr := pdfdoc.BuildSimple(six, 612, 792)
 		put("pdfSix", ".pdf", sb, serr)
 	}
+	// six pages; a marginal line that stands at the same place on two of them only (fewer than half), unique first lines
+	// in the band on the others, and a page number on all: which marginal texts count as running depends on counts per
+	// text - never on the order in which the texts happen to be visited
+	{
+		var six [][]pdfdoc.Placed
+		for p := 1; p <= 6; p++ {
+			pg := []pdfdoc.Placed{{X: 300, Y: 25, Size: 10, Text: fmt.Sprintf("Page %d", p)}}
+			if p == 2 || p == 5 {
+				pg = append(pg, pdfdoc.Placed{X: 72, Y: 760, Size: 10, Text: "Draft Appendix"})
+			} else {
+				// (no digits: numbers are levelled out when marginal texts are compared)
+				pg = append(pg, pdfdoc.Placed{X: 72, Y: 760, Size: 10, Text: []string{"Amber opening", "Birch prelude", "Cedar overture", "Dune foreword", "Ember preface", "Fjord prologue"}[p-1]})
+			}
+			for l := 0; l < 4; l++ {
+				pg = append(pg, pdfdoc.Placed{X: 72, Y: 650 - 20*l, Size: 10, Text: fmt.Sprintf("body line %d of page %d", l, p)})
+			}
+			six = append(six, pg)
+		}
+		pb, perr := pdfdoc.BuildSimple(six, 612, 792)
+		put("pdfPartialHeader", ".pdf", pb, perr)
+	}
 	var placed [][]pdfdoc.Placed
 	for p := 0; p < 3; p++ {
 		pg := []pdfdoc.Placed{{X: 72, Y: 760, Size: 10, Text: "Running Header"}, {X: 300, Y: 25, Size: 10, Text: fmt.Sprintf("Page %d", p+1)}}
@@ -344,6 +366,49 @@ func swapDoc(name string) *hdoc {
 	return &hdoc{name: "swap-" + name, run: map[string]func() string{
 		"text":     with(func(p string) (string, error) { s, _, err := tabula.Open(p).Text(); return s, err }),
 		"markdown": with(func(p string) (string, error) { s, _, err := tabula.Open(p).ToMarkdown(); return s, err }),
+	}}
+}
+
+// repeatDoc: one operation sixteen times in a row in ONE process, each on a fresh extractor: all sixteen results are the
+// same (Go randomises the iteration order of maps per loop, so an outcome that depends on it differs between runs of
+// one process already). A run that disagrees with itself reports a value that no other run can reproduce.
+func repeatDoc(name string) *hdoc {
+	path := docFilePaths[name]
+	x16 := func(f func() (string, error)) func() string {
+		return func() string {
+			first := ""
+			for k := 0; k < 16; k++ {
+				s, err := f()
+				if err != nil {
+					s = errStr(err)
+				}
+				if k == 0 {
+					first = s
+				} else if s != first {
+					return fmt.Sprintf("run %d of 16 differs from run 1 (nonce %d): %q vs %q", k+1, time.Now().UnixNano(), s, first)
+				}
+			}
+			return first
+		}
+	}
+	return &hdoc{name: "repeat-" + name, run: map[string]func() string{
+		"xh-text-x16": x16(func() (string, error) { s, _, err := tabula.Open(path).ExcludeHeaders().Text(); return s, err }),
+		"xhf-text-x16": x16(func() (string, error) {
+			s, _, err := tabula.Open(path).ExcludeHeadersAndFooters().Text()
+			return s, err
+		}),
+		"xhf-md-x16": x16(func() (string, error) {
+			s, _, err := tabula.Open(path).ExcludeHeadersAndFooters().ToMarkdown()
+			return s, err
+		}),
+		"chunks-x16": x16(func() (string, error) {
+			cc, _, err := tabula.Open(path).ExcludeHeaders().Chunks()
+			if err != nil {
+				return "", err
+			}
+			j, err := cc.ToJSONL()
+			return j, err
+		}),
 	}}
 }
 
@@ -627,6 +692,11 @@ func init() {
 		for _, n := range []string{"pdfA", "pdfA2", "pdfC"} {
 			if docFilePaths[n] != "" {
 				out = append(out, swapDoc(n))
+			}
+		}
+		for _, n := range []string{"pdfPartialHeader", "pdfC", "pdfMixed"} {
+			if docFilePaths[n] != "" {
+				out = append(out, repeatDoc(n))
 			}
 		}
 		out = append(out, collDoc("html"))
